@@ -1,9 +1,11 @@
 (** C17 model, part (i): the framing of the textual .uasm form.
-    Transcribed from src/assembly.rs: [Assembly::to_uasm] (lines 494-608) and the head of
-    [Assembly::from_uasm] (lines 252-274, and the per-section line iterators below it).
-    Text is a list of Unicode scalar values ([N]).  [str::split_once(&str)] cuts at the
-    FIRST occurrence of the pattern anywhere in the text (not line aligned); searching
-    code points is the same as searching UTF-8 bytes because UTF-8 is self-synchronising.
+    Transcribed from src/assembly.rs: [Assembly::to_uasm] and the head of [Assembly::from_uasm]
+    (the local fn split_marker, the cascade of cuts with its trims, and the per-section line
+    iterators below it).  [from_uasm] is the code after /repo 0f91cb1 (a section marker is a
+    whole line); [from_uasm_pre] is the code before it ([str::split_once(&str)] on the bare
+    marker word: the FIRST occurrence anywhere in the text, not line aligned).
+    Text is a list of Unicode scalar values ([N]); searching code points is the same as
+    searching UTF-8 bytes because UTF-8 is self-synchronising.
     Executable definitions only; proofs are in Proofs/Uasm.v. *)
 From Coq Require Import List NArith Bool.
 Import ListNotations.
